@@ -32,6 +32,9 @@ var w3cBlock = map[string]struct {
 	"http://www.w3.org/2009/xmlenc11#aes256-gcm":     {"crypto/aes.NewCipher", 32},
 }
 
+// cryptoHashCtor: the constructor each crypto.Hash identifier stands for.
+var cryptoHashCtor = map[int64]string{3: "crypto/sha1.New", 4: "crypto/sha256.New224", 5: "crypto/sha256.New", 6: "crypto/sha512.New384", 7: "crypto/sha512.New", 9: "golang.org/x/crypto/ripemd160.New"}
+
 var w3cDigest = map[string]string{
 	"http://www.w3.org/2000/09/xmldsig#sha1":        "crypto/sha1.New",
 	"http://www.w3.org/2000/09/xmldsig#sha256":      "crypto/sha256.New", // (the identifier this library uses; xmlenc#sha256 in the standard)
@@ -346,6 +349,10 @@ func ruleC10(r *Report) {
 		case "digestMethod":
 			want, ok := w3cDigest[uri]
 			h := funcValueName(a.Fields["hash"])
+			if k, isConst := a.Fields["hash"].(*ssa.Const); isConst && k.Value != nil && strings.HasSuffix(k.Type().String(), "crypto.Hash") {
+				// a crypto.Hash identifier: the constructor (crypto.Hash).New resolves it to (C11.hash-linked: and it is linked)
+				h = cryptoHashCtor[k.Int64()]
+			}
 			r.Check(ok && h == want, "C10.params", cons, posOf(p, a), h, fmt.Sprintf("hash constructor %s under identifier %s (table: %s)", h, uri, want))
 		case "RSA":
 			want, ok := w3cKeyTransport[uri]
